@@ -83,7 +83,7 @@ def history(ctx, rng, length, hid):
 
     def effects(node):
         if isinstance(node, canopen.RemoteNode):
-            return (node.sdo.responses.qsize(), len(node.emcy.log), node.nmt._state, node.nmt.timestamp)
+            return (tuple(ch.responses.qsize() for ch in node.sdo_channels), len(node.emcy.log), node.nmt._state, node.nmt.timestamp)
         return (node.nmt._state,)
 
     def deliver(can_id, data, ts, how):
@@ -137,7 +137,8 @@ def history(ctx, rng, length, hid):
                 ctx.count("node_effect_checks")
                 changed = effects(n) != before_live[k]
                 if isinstance(n, canopen.RemoteNode):
-                    mine = can_id in (0x580 + k, 0x80 + k, 0x700 + k) and len(data) >= (8 if can_id == 0x80 + k else 1)
+                    extra = [ch.tx_cobid for ch in n.sdo_channels]
+                    mine = can_id in [0x80 + k, 0x700 + k] + extra and len(data) >= (8 if can_id == 0x80 + k else 1)
                     if can_id == 0x700 + k and mine:
                         # a heartbeat always leaves its timestamp and state behind (it may equal what was there before)
                         code = data[0] & 0x7F
@@ -187,14 +188,31 @@ def history(ctx, rng, length, hid):
             except KeyError:
                 if cid in model and cid in net.subscribers:
                     ctx.violation("unsubscribe-all-raised", f"unsubscribe({cid:#x}) raised although the id is known", case())
-            model.pop(cid, None)
+            old_names = model.pop(cid, None) or []
             ctx.case(("unsubscribe-all",), nontrivial=True)
+            if old_names and rng.random() < 0.6:
+                # the same callbacks come back on the same id: they must be delivered to again
+                for name in old_names:
+                    ops.append(("subscribe", hex(cid), name))
+                    net.subscribe(cid, cb(name))
+                    model.setdefault(cid, []).append(name)
         elif r < 0.48:
             nid = rng.choice([1, 2, 5])
             kind = rng.choice(["remote", "local"])
-            ops.append(("add-node", nid, kind))
             old = nodes.get(nid)
+            if old is not None and rng.random() < 0.3:
+                # adding the very same node object again must leave it connected
+                ops.append(("re-add-same-node", nid))
+                try:
+                    net.add_node(old) if isinstance(old, canopen.RemoteNode) else net.create_node(old)
+                except Exception as exc:  # noqa: BLE001
+                    ctx.violation(f"add-node-raised:{type(exc).__name__}", f"re-adding node {nid} raised {exc!r}", case())
+                ctx.case(("re-add-same-node", "remote" if isinstance(old, canopen.RemoteNode) else "local"), nontrivial=True)
+                continue
+            ops.append(("add-node", nid, kind))
             node = canopen.RemoteNode(nid, od_factory()) if kind == "remote" else canopen.LocalNode(nid, od_factory())
+            if kind == "remote" and rng.random() < 0.5:
+                node.add_sdo(0x640 + nid, 0x5C0 + nid)          # an additional SDO channel (before or after joining the network)
             try:
                 net.add_node(node) if kind == "remote" else net.create_node(node)
             except Exception as exc:  # noqa: BLE001
@@ -215,7 +233,7 @@ def history(ctx, rng, length, hid):
             removed.append((old, "remote" if isinstance(old, canopen.RemoteNode) else "local", nid))
             ctx.case(("del-node", "remote" if isinstance(old, canopen.RemoteNode) else "local"), nontrivial=True)
         elif r < 0.9:
-            pool = USER_IDS + [0x581, 0x582, 0x585, 0x701, 0x702, 0x705, 0x081, 0x082, 0x085, 0x601, 0x602, 0x605, 0]
+            pool = USER_IDS + [0x581, 0x582, 0x585, 0x701, 0x702, 0x705, 0x081, 0x082, 0x085, 0x601, 0x602, 0x605, 0, 0x5C1, 0x5C2, 0x5C5]
             cid = rng.choice(pool)
             if cid == 0:
                 data = bytes([rng.choice([1, 2, 128, 129, 130]), rng.choice([0, 1, 2, 5, 9])])
